@@ -12,6 +12,7 @@ one() {
   extra=""
   case $n in C01-b|C05-b) extra="C13";; C13-b) extra="C16";; C04-b) extra="C20";; esac
   r=$(selftest/try_wt.sh "$patch" $id $extra 2>&1 | cut -c1-260 | tr '\n' ' ' | tr '|' '/')
+  case "$r" in *"failed to read .git/worktrees"*|*"could not lock"*) sleep $((RANDOM % 7)); r=$(selftest/try_wt.sh "$patch" $id $extra 2>&1 | cut -c1-260 | tr '\n' ' ' | tr '|' '/');; esac
   echo "| $n | $id | $r |" > "$TMP/$n.row"
   cat "$TMP/$n.row" >> "$OUTF.progress"
 }
